@@ -172,6 +172,7 @@ func runC06(c *report.Ctx) {
 	p := c.P
 	ruleSoleWriter(c)
 	ruleNoTxUnderUpdate(c, 8)
+	ruleMemoryTipFollowsPersistedTip(c) // after a restart the in-memory tip is the persisted one
 
 	c.Rule("step-table", "each logical step performs all its mutations and its progress marker inside one Update closure", 9)
 	upd := fn(c, pkgDB, "", "Update")
